@@ -61,6 +61,18 @@ def _fake_virtual_memory():
     return collections.namedtuple('svmem', 'total available')(Mem.total, Mem.available)
 
 
+class NoneDetFn(W.MapFn):
+    """deterministic map whose value is None for every third example (a loader
+    that returns None for a missing file)"""
+
+    def __call__(self, x):
+        ctx, ids = W._enter(self.stage, x)
+        ctx.event('ret', self.stage, ids)
+        if ids[0] % 3 == 0:
+            return None
+        return {'f': self.stage, 'x': x}
+
+
 class TupleFn:
     """x -> (x, [marker]): a shallowly immutable example with mutable content"""
 
@@ -124,6 +136,8 @@ def gen(rng, tier, index):
     base = {'n': n, 'source': src, 'fresh': rng.random() < 0.7,
             'keep': rng.choice(['5 GB', '50%', '2GiB', None]),
             'tuple': rng.random() < 0.2}
+    if not base['fresh'] and not base['tuple'] and rng.random() < 0.4:
+        base['nonevals'] = True
     cases = []
     for j in range(3):
         flap = rng.random() < 0.2
@@ -204,6 +218,8 @@ class Model:
 
     def expected_det(self, i):
         v = {'f': 'det', 'x': {'f': 'u0', 'x': {'src': i}}}
+        if self.case.get('nonevals') and i % 3 == 0:
+            v = None
         return ['__tuple__', v, ['m']] if self.case.get('tuple') else v
 
     def bad(self, cls, sig, msg):
@@ -443,7 +459,8 @@ def _upstream(case):
     else:
         src = lazy_dataset.new([{'src': i} for i in range(n)])
     up = src.map(W.MapFn('u0')).map(
-        FreshLogFn('fresh') if case['fresh'] else W.MapFn('det'))
+        FreshLogFn('fresh') if case['fresh'] else
+        (NoneDetFn('det') if case.get('nonevals') else W.MapFn('det')))
     if case.get('tuple'):
         up = up.map(TupleFn())
     return up
